@@ -296,6 +296,12 @@ func opUnsetTF(h *Hist) {
 		v, ok := child(cur, s)
 		if !ok {
 			resolves = false
+			// sometimes the path goes on after the step that cannot be taken (an intermediate, not the leaf, is missing)
+			for extra := h.d.Draw("unset-tail", 3); extra > 0; extra-- {
+				t := seg{isIdx: h.d.Draw("unset-tail-kind", 2) == 0, key: plainKeyPool[h.d.Draw("key", len(plainKeyPool))], idx: h.d.Draw("unset-tail-idx", 4)}
+				path = append(path, t)
+				h.counters["probe:unsettf-missing-intermediate"]++
+			}
 			break
 		}
 		if lvl == depth-1 || !v.isRef() {
